@@ -47,7 +47,8 @@ func C13(c *fw.Ctx) {
 	c.Rule("breadth-first from a directive-start position in four contexts (file start, after a complete directive, after ')', inside an explicit " +
 		"context): every live prefix (neither rejected nor completed) is extended by each of the 256 bytes and by end of file; every completed " +
 		"keyword is followed by each of the 256 bytes and by end of file; oracle = independent list of the 30 keywords and the codes 100-599, " +
-		"terminator set {blank, tab, CR, LF, '#', '/', EOF}; distinct = distinct probe strings; non-trivial = every probe (each decides one transition)")
+		"terminator set {blank, tab, CR, LF, '#', '/', EOF}; the same word list x 257 followers and ~4000 near misses x 7 terminators are also probed " +
+		"at a line start inside the text of an implicit Description (three contexts), where only two things are decided: keyword + terminator starts a directive, and no other word becomes a keyword lexeme; distinct = distinct probe strings; non-trivial = every probe (each decides one transition)")
 	c.Assume("the public scanner API (scanner.NewJApiScanner(...).Next()) is the observation point; depth bound 12 (the longest keywords have 11 bytes)")
 	words := keywordList()
 	prefixes := map[string]bool{"": true}
@@ -198,6 +199,77 @@ func C13(c *fw.Ctx) {
 				c.Violate("keyword:unreachable", fmt.Sprintf("context %s: %d words of the list were never accepted: %v", cx.name, len(missing), missing[:minI(len(missing), 10)]), nil)
 			}
 		}
+	}
+	// A line start inside the text of an implicit Description is a position where a directive may start as well; there the decision is
+	// taken by another piece of code (a look-ahead over the line), and anything that is not a keyword is text, not an error.
+	for _, cx := range []struct{ name, text string }{
+		{"description-text-line-start", "JSIGHT 0.3\nGET /a\n  Description\n    some text\n"},
+		{"description-text-indented-line", "JSIGHT 0.3\nURL /a\n  GET\n    Description\n      some text\n  "},
+		{"description-text-after-blank-line", "JSIGHT 0.3\nGET /a\n  Description\n    some text\n\n\t"},
+	} {
+		var ws []string
+		for w := range words {
+			ws = append(ws, w)
+		}
+		sort.Strings(ws)
+		var cases []probeCase
+		var want []bool
+		for _, w := range ws {
+			for b := -1; b < 256; b++ {
+				cases = append(cases, probeCase{ctx: cx.text, prefix: w, b: b})
+				want = append(want, b < 0 || isTerminator(b))
+			}
+		}
+		// near misses followed by each terminator: proper prefixes, one byte changed, one byte appended
+		near := map[string]bool{}
+		for _, w := range ws {
+			for i := 1; i < len(w); i++ {
+				near[w[:i]] = true
+			}
+			for i := 0; i < len(w); i++ {
+				for _, d := range []byte{w[i] ^ 0x20, w[i] + 1, w[i] - 1} {
+					near[w[:i]+string([]byte{d})+w[i+1:]] = true
+				}
+			}
+			near[w+"s"], near[w+"0"], near[w+w] = true, true, true
+		}
+		var ns []string
+		for w := range near {
+			if !words[w] && !strings.ContainsAny(w, " \t\r\n#/") {
+				ns = append(ns, w)
+			}
+		}
+		sort.Strings(ns)
+		for _, w := range ns {
+			for _, b := range []int{-1, ' ', '\t', '\n', '\r', '#', '/'} {
+				cases = append(cases, probeCase{ctx: cx.text, prefix: w, b: b})
+				want = append(want, false)
+			}
+		}
+		results := runProbes(c, pool, cases, len(cx.text))
+		off := len(cx.text)
+		recognised := newStrSet()
+		for i, pc := range cases {
+			pr := results[i]
+			c.Count(cx.name+"\x02"+pc.prefix+fmt.Sprint(pc.b), true)
+			if pr.Panic != "" {
+				c.Violate("panic:scan", fmt.Sprintf("context %s, word %q + %s: %s", cx.name, pc.prefix, byteName(pc.b), pr.Panic), &fw.Replay{Observed: pr})
+				continue
+			}
+			kw := pr.LexType == "keyword" && pr.Begin == off && pr.End == off+len(pc.prefix)-1
+			// a non-keyword line may be text or an error (a line of text that merely begins with a keyword is ambiguous in the language);
+			// what must not happen is a keyword lexeme whose value is the non-keyword
+			anyKw := kw && !words[pc.prefix]
+			switch {
+			case want[i] && !kw:
+				c.Violate("description:keyword-not-recognised", fmt.Sprintf("context %s: the line %q (+%s) after a Description text must start a directive; scanner gave lexeme=%q [%d:%d] error@%d %s", cx.name, pc.prefix, byteName(pc.b), pr.LexType, pr.Begin, pr.End, pr.ErrIndex, pr.ErrMsg), &fw.Replay{Observed: pr, Expected: string(pc.bytes())})
+			case !want[i] && anyKw:
+				c.Violate("description:extra-word-accepted", fmt.Sprintf("context %s: %q followed by %s is not a keyword but is scanned as one: lexeme=%q [%d:%d]", cx.name, pc.prefix, byteName(pc.b), pr.LexType, pr.Begin, pr.End), &fw.Replay{Observed: pr, Expected: string(pc.bytes())})
+			case want[i]:
+				recognised.add(pc.prefix)
+			}
+		}
+		c.Inc("accepted_words", cx.name, recognised.len())
 	}
 	c.Extra("directive_kinds_hit", kindsHit.len())
 	if kindsHit.len() != 31 {
